@@ -12,6 +12,7 @@ import (
 	"os"
 	"path/filepath"
 	"sort"
+	"strings"
 	"sync"
 	"testing"
 
@@ -419,12 +420,16 @@ func TestVerifC20Replay(t *testing.T) {
 				sys := vfC20New(n, min, ro, vfh.Seed()*7919+int64(w.Walk))
 				var prefix []vfh.Op
 				prevKey := string(w.Init)
+				loose := false // the real object and the model are out of step: only the model-free clauses are judged
 				for i, st := range w.Steps {
 					prefix = append(prefix, st.Op)
 					cls, what, exp, got := sys.step(st.Op)
 					res.Case(inst + "|" + prevKey + "|" + vfh.Canon(st.Op))
 					prevKey = string(st.State)
-					if cls == "" {
+					if loose && (cls == "filter-result" || strings.HasPrefix(cls, "L2:")) {
+						cls = ""
+					}
+					if cls == "" && !loose {
 						obsEq, allEq, mcanon := vfC20StateEq(st.State, sys.project())
 						if !obsEq {
 							// State() is public; but cross-check with the L1 monitors: they ran in step().
@@ -437,6 +442,10 @@ func TestVerifC20Replay(t *testing.T) {
 					if cls != "" {
 						res.AddMismatch(vfh.Mismatch{Class: cls, What: what, Walk: w.Walk, Step: i, Expected: exp, Got: got,
 							Prefix: prefix, Cfg: map[string]any{"N": n, "MinSucc": min, "ReadOnly": ro, "file": filepath.Base(f)}})
+						if strings.HasPrefix(cls, "L2:") {
+							loose = true // keep going: the rest of the walk is still a legal history for the real object
+							continue
+						}
 						break
 					}
 				}
